@@ -32,7 +32,11 @@ use std::{
 use tokio::sync::RwLock;
 
 #[cfg(feature = "files")]
-use {sos_backend::FileEventLog, sos_core::events::patch::FileDiff};
+use {
+    sos_backend::FileEventLog,
+    sos_core::events::{patch::FileDiff, FileEvent},
+    sos_vfs as vfs,
+};
 
 // Must use a new type due to the orphan rule.
 #[doc(hidden)]
@@ -421,6 +425,42 @@ where
             outcome.changes += diff.patch.len() as u64;
             outcome.tracked.files =
                 TrackedChanges::new_file_records(&diff.patch).await?;
+
+            // Local copies of files that the merged events deleted
+            // or moved must follow the event log otherwise blobs for
+            // deleted secrets and folders are left behind
+            if let Some(file_manager) = self.0.external_file_manager() {
+                let paths = self.0.paths();
+                for record in diff.patch.iter() {
+                    match record.decode_event::<FileEvent>().await? {
+                        FileEvent::DeleteFile(owner, file_name) => {
+                            let path = paths.into_file_path_parts(
+                                &owner.0, &owner.1, &file_name,
+                            );
+                            if vfs::try_exists(path).await? {
+                                file_manager
+                                    .delete_file(
+                                        &owner.0, &owner.1, &file_name,
+                                    )
+                                    .await?;
+                            }
+                        }
+                        FileEvent::MoveFile { name, from, dest } => {
+                            let path = paths
+                                .into_file_path_parts(&from.0, &from.1, &name);
+                            if vfs::try_exists(path).await? {
+                                file_manager
+                                    .move_file(
+                                        &from.0, &dest.0, &from.1, &dest.1,
+                                        &name,
+                                    )
+                                    .await?;
+                            }
+                        }
+                        _ => {}
+                    }
+                }
+            }
         }
 
         Ok(checked_patch)
